@@ -53,10 +53,11 @@ Lemma filter_kids_some rec l :
   (forall c, In c l -> rec c <> OutOfFuel) -> filter_kids rec l <> None.
 Proof.
   induction l as [|c r IH]; intros H; cbn [filter_kids]; [discriminate|].
+  assert (Hr : filter_kids rec r <> None) by (apply IH; intros c' Hin; apply H; now right).
   destruct (rec c) as [|[t|]] eqn:E.
   - exfalso. apply (H c); [now left|exact E].
-  - destruct (filter_kids rec r) eqn:Er; [discriminate|]. exfalso. apply IH; [|exact Er]. intros c' Hin. apply H. now right.
-  - apply IH. intros c' Hin. apply H. now right.
+  - destruct (filter_kids rec r); [discriminate|contradiction].
+  - exact Hr.
 Qed.
 
 (* ---------- clause 1: every node of a copy is usable ---------- *)
@@ -259,9 +260,9 @@ Proof.
 Qed.
 
 Lemma backend_part_map l : backend_part (map MBackend l) = l.
-Proof. induction l as [|b r IH]; [reflexivity|]. cbn. now rewrite IH. Qed.
+Proof. unfold backend_part. induction l as [|b r IH]; [reflexivity|]. cbn [map flat_map app]. now f_equal. Qed.
 Lemma proxy_part_map l : proxy_part (map MBackend l) = [].
-Proof. induction l as [|b r IH]; [reflexivity|]. cbn. exact IH. Qed.
+Proof. unfold proxy_part. induction l as [|b r IH]; [reflexivity|]. cbn [map flat_map app]. exact IH. Qed.
 
 Lemma merge_backend backend proxy : NoDup (map o_id proxy) ->
   backend_part (merge backend proxy) = filter (fun b => negb (mem (b_name b) (map o_id proxy))) backend.
@@ -330,13 +331,31 @@ Definition g_ex : graph :=
    (4, mkG KLit true true None []);
    (5, mkG KLit false true None [])].
 
-Example g_ex_ranked : ranked g_ex (fun id => match id with 0 => 3 | 1 => 2 | 3 => 1 | _ => 0 end)%nat.
+(* executable sufficient check for [ranked] *)
+Definition ranked_b (g : graph) (rank : N -> nat) : bool :=
+  forallb (fun e : N * gnode =>
+    forallb (fun c => Nat.ltb (rank c) (rank (fst e))) (g_children (snd e))
+    && match g_redirect (snd e) with Some t => Nat.ltb (rank t) (rank (fst e)) | None => true end) g.
+
+Lemma lookup_in g id n : lookup g id = Some n -> In (id, n) g.
 Proof.
-  intros id n H. unfold g_ex in H. cbn in H.
-  repeat match type of H with
-  | (if ?a =? ?b then _ else _) = _ => destruct (N.eqb_spec a b); [subst; injection H as <-; cbn; split; intros x Hx; repeat (destruct Hx as [<-|Hx]; [cbn; lia|]); try contradiction; try discriminate; try (injection Hx as <-; cbn; lia)|]
-  end; discriminate.
+  induction g as [|[k m] r IH]; cbn [lookup]; [discriminate|].
+  destruct (N.eqb_spec k id) as [->|_]; [intros [= ->]; now left|]. intros H. right. now apply IH.
 Qed.
+
+Lemma ranked_b_sound g rank : ranked_b g rank = true -> ranked g rank.
+Proof.
+  intros H id n Hl. unfold ranked_b in H. rewrite forallb_forall in H.
+  specialize (H _ (lookup_in _ _ _ Hl)). cbn [fst snd] in H. apply andb_true_iff in H. destruct H as [Hc Ht]. split.
+  - intros c Hin. rewrite forallb_forall in Hc. apply Nat.ltb_lt. now apply Hc.
+  - intros t Hr. rewrite Hr in Ht. now apply Nat.ltb_lt.
+Qed.
+
+Definition rank_ex (id : N) : nat :=
+  if id =? 0 then 3%nat else if id =? 1 then 2%nat else if id =? 3 then 1%nat else 0%nat.
+
+Example g_ex_ranked : ranked g_ex rank_ex.
+Proof. apply ranked_b_sound. vm_compute. reflexivity. Qed.
 
 Example g_ex_announce :
   announce 4 g_ex [mkB 4 77; mkB 9 99] =
